@@ -1,28 +1,10 @@
-mod alloc;
-mod c03;
-mod c05;
-mod c12;
-mod c13;
-mod c14;
-mod c15;
-mod c16;
-mod c17;
-mod chan;
-mod driver;
-mod forkrun;
-mod iter;
-mod probe;
-mod reg;
-mod vsched;
+use sigverif::*;
 
-use driver::{PropDef, Tier};
+use sigverif::driver::{self, PropDef, Tier};
 
 #[global_allocator]
 static GLOBAL: alloc::CountingAlloc = alloc::CountingAlloc;
 
-fn props() -> Vec<&'static PropDef> {
-    vec![&chan::C06, &chan::C07, &chan::C08, &reg::C01, &reg::C02, &c03::C03, &reg::C04, &reg::C18, &c14::C14, &c12::C12, &c16::C16, &c15::C15, &c13::C13, &c05::C05, &c17::C17, &iter::C09, &iter::C10, &iter::C11]
-}
 
 fn find(id: &str) -> &'static PropDef {
     match props().into_iter().find(|p| p.id == id) {
